@@ -1,4 +1,5 @@
 import Bee2V.C11.Lemmas
+import Bee2V.C11.LemmasConc
 import Bee2V.Gen.C11List
 /-
 C11 — property theorems.  Every address is a universally quantified natural number: the
@@ -351,40 +352,45 @@ theorem derTBITDec_overlap (m : Mem) (val lp der voff l : Nat) (hok : bitOk m (d
 /-- the witness of the fix: der = 03 03 05 AB E0, val = der + 1 -/
 example : bitOk (fun x => [3, 3, 5, 0xAB, 0xE0].getD x 0) 2 3 = true := by decide
 
-/-! ### belt.h beltKeyExpand ("Буферы key и key_ могут пересекаться") -/
+/-! ### dstu.h dstuPointCompress / dstuPointRecover ("Буферы point и xpoint могут пересекаться") -/
 
-/- Full statement: ∀ m key_ key len, len ∈ {16, 24, 32} →
-     read (keyExpand m key_ key len) key_ 32 = keyExpandPure (read m key len)
-   and the same for keyExpand2.  Proved below for len ∈ {16, 32} of `beltKeyExpand`; len = 24 (the two XOR
-   words, computed inside key_ after the move) and `beltKeyExpand2` are tied by the correspondence run only. -/
-theorem beltKeyExpand_overlap_partial (m : Mem) (key_ key len : Nat) (hl : len = 16 ∨ len = 32) :
-    read (keyExpand m key_ key len) key_ 32 = keyExpandPure (read m key len) := by
-  rcases hl with hl | hl
-  · subst hl
-    have h16 : (16 : Nat) = 16 := rfl
-    simp only [keyExpand, keyExpandPure, read_length, if_true]
-    rw [show (32 : Nat) = 16 + 16 from rfl, read_append]
-    have a := (memMove_overlap m key_ key 16).1
-    congr 1
-    · rw [read_memMove_disj _ _ _ _ _ _ (by rw [disj2_iff]; omega)]; exact a
-    · rw [(memMove_overlap (memMove m key_ key 16) (key_ + 16) key_ 16).1]; exact a
-  · subst hl
-    simp [keyExpand, keyExpandPure, read_length, (memMove_overlap m key_ key 32).1]
+/-- dstuPointRecover: xpoint is absorbed completely before point is written, so xpoint may lie anywhere inside
+    point (and vice versa) -/
+theorem dstuRecover_overlap (c : Core) (idg idv : String) (m : Mem) (point xpoint no : Nat) :
+    run c (progDstuRecover idg idv point xpoint no) ⟨m, [], 0⟩ =
+      if c.ok idv [read m xpoint no] [] then
+        some ⟨write m point (c.g idg [read m xpoint no] (2 * no)), [read m xpoint no], 0⟩
+      else some ⟨memSet m 0 0 0, [read m xpoint no], ERR_BAD_PARAMS⟩ := by
+  simp only [run, progDstuRecover, List.nil_append]
+  have : read m 0 0 = [] := rfl
+  rw [this]
 
-example : read (keyExpand (fun x => UInt8.ofNat x) 4 0 16) 4 32 =
-    keyExpandPure (read (fun x => UInt8.ofNat x) 0 16) := by decide
+/-- dstuPointCompress: both coordinates are absorbed first; then `memMove(xpoint, point, no)` (any overlap) and
+    the trace bit goes into the first octet, which is the OLD first octet of point -/
+theorem dstuCompress_overlap (c : Core) (idx idv : String) (m : Mem) (xpoint point no : Nat) (h : 0 < no) :
+    run c (progDstuCompress idx idv xpoint point no) ⟨m, [], 0⟩ =
+      if c.ok idv [read m point (2 * no)] [] then
+        some ⟨write (memMove m xpoint point no) xpoint (c.x idx [read m point (2 * no)] (read m point 1)),
+              [read m point (2 * no), read m point 1], 0⟩
+      else some ⟨memSet m 0 0 0, [read m point (2 * no)], ERR_BAD_POINT⟩ := by
+  have e : read (memMove m xpoint point no) xpoint 1 = read m point 1 := by
+    have := read_memMove_sub m xpoint point no 0 1 (by omega)
+    simpa using this
+  simp only [run, progDstuCompress, List.nil_append, List.cons_append, e]
+  have : read m 0 0 = [] := rfl
+  rw [this]
 
 /-! ### coverage of the header remarks (fail-closed) -/
 
-/-- functions of include/bee2/core and include/bee2/crypto documented as overlap-tolerant that this
-    file (or, for the last two, another property) covers, with the theorem that covers them -/
+/-- every function of include/bee2/**/*.h documented as overlap-tolerant (or same-or-disjoint), with the theorem that
+    covers it: in Props.lean / PropsConc.lean / PropsMath.lean of C11, or (`C05.…`) in Bee2V/C05/PropsAlias.lean -/
 def covered : List (String × String) := [
   ("memMove", "memMove_overlap"), ("memJoin", "memJoin_overlap"),
   ("memXor", "memXor_sameOrDisjoint"), ("memXor2", "memXor2_sameOrDisjoint"),
-  ("beltKeyExpand", "beltKeyExpand_overlap_partial"), ("beltKeyExpand2", "-"),
-  ("derEnc", "derEnc_overlap"), ("derTPSTREnc", "derEnc_overlap"), ("derTUINTEnc", "-"), ("derTBITEnc", "-"),
-  ("derTUINTDec", "-"), ("derTUINTDec2", "-"), ("derTBITDec", "derTBITDec_overlap"), ("derTBITDec2", "derTOCTDec2_overlap"),
-  ("derTOCTDec", "derTOCTDec_overlap"), ("derTOCTDec2", "derTOCTDec2_overlap"), ("derTPSTRDec", "-"),
+  ("beltKeyExpand", "beltKeyExpand_overlap"), ("beltKeyExpand2", "beltKeyExpand2_overlap"),
+  ("derEnc", "derEnc_overlap"), ("derTPSTREnc", "derEnc_overlap"), ("derTUINTEnc", "derTUINTEnc_overlap"), ("derTBITEnc", "derTBITEnc_overlap"),
+  ("derTUINTDec", "derTUINTDec_overlap"), ("derTUINTDec2", "derTUINTDec2_overlap"), ("derTBITDec", "derTBITDec_overlap"), ("derTBITDec2", "derTOCTDec2_overlap"),
+  ("derTOCTDec", "derTOCTDec_overlap"), ("derTOCTDec2", "derTOCTDec2_overlap"), ("derTPSTRDec", "derTPSTRDec_overlap"),
   ("beltCBCEncr", "beltModeIv_overlap"), ("beltCBCDecr", "beltModeIv_overlap"), ("beltCFBEncr", "beltModeIv_overlap"),
   ("beltCFBDecr", "beltModeIv_overlap"), ("beltCTR", "beltModeIv_overlap"), ("beltBDEEncr", "beltModeIv_overlap"),
   ("beltBDEDecr", "beltModeIv_overlap"), ("beltSDEEncr", "beltSDE_overlap"), ("beltSDEDecr", "beltSDE_overlap"),
@@ -399,8 +405,19 @@ def covered : List (String × String) := [
   ("beltSDEStart", "start_overlap"), ("beltFMTStart", "start_overlap"), ("beltKRPStart", "start_overlap"),
   ("beltMACStepG", "stepG_overlap"), ("beltMACStepG2", "stepG_overlap"), ("beltHashStepG", "stepG_overlap"),
   ("beltHashStepG2", "stepG_overlap"), ("beltHMACStepG2", "stepG_overlap"), ("bashHashStepG", "stepG_overlap"),
-  -- covered by another property (binary-curve model): listed so that the scope check stays total
-  ("dstuPointCompress", "-"), ("dstuPointRecover", "-")]
+  ("dstuPointCompress", "dstuCompress_overlap"), ("dstuPointRecover", "dstuRecover_overlap"),
+  -- math headers: proved here (Bee2V/C11/PropsMath.lean) …
+  ("wwCopy", "wwCopy_alias"), ("wwXor", "wwXor_alias"), ("wwXor2", "wwXor2_alias"),
+  ("ppMulW", "ppMulW_alias"), ("ppAddMulW", "ppAddMulW_alias"), ("zzAdd3", "zzAdd3_alias"),
+  -- … or by C05 (Bee2V/C05/PropsAlias.lean; referenced by name in PropsMath.lean)
+  ("zzAdd", "C05.zzAdd_alias"), ("zzAdd2", "C05.zzAdd2_alias"), ("zzAddW", "C05.zzAddW_alias"),
+  ("zzSub", "C05.zzSub_alias"), ("zzSub2", "C05.zzSub2_alias"), ("zzSubW", "C05.zzSubW_alias"),
+  ("zzNeg", "C05.zzNeg_alias"), ("zzMulW", "C05.zzMulW_alias"), ("zzAddMulW", "C05.zzAddMulW_alias"),
+  ("zzSubMulW", "C05.zzSubMulW_alias"), ("zzDivW", "C05.zzDivW_alias"),
+  ("zzAddMod", "C05.zzAddMod_safe_alias"), ("zzAddWMod", "C05.zzAddWMod_safe_alias"),
+  ("zzSubMod", "C05.zzSubMod_safe_alias"), ("zzSubWMod", "C05.zzSubWMod_safe_alias"),
+  ("zzNegMod", "C05.zzNegMod_safe_alias"), ("zzDoubleMod", "C05.zzDoubleMod_safe_alias"),
+  ("zzHalfMod", "C05.zzHalfMod_safe_alias")]
 
 /-- fail-closed: every function that the headers (as scanned on THIS run) document as overlap-tolerant is
     in the covered list; a new remark makes this theorem fail -/
